@@ -98,6 +98,8 @@ def def_sol(formula, display=True, log=False, params={}):
 
         integrality = np.zeros(A.shape[1])
         integrality[vtype != 'C'] = 1
+        lb[vtype != 'C'] = np.ceil(lb[vtype != 'C'] - 1e-9)
+        ub[vtype != 'C'] = np.floor(ub[vtype != 'C'] + 1e-9)
 
         if display:
             print('Being solved by the default MILP solver...', flush=True)
